@@ -142,6 +142,10 @@ def _rdata_text(rdtype, target_labels, salt):
         return dns.name.Name(target_labels).to_text()
     if rdtype == MX:
         return "10 " + dns.name.Name(target_labels).to_text()
+    if rdtype == 12:  # PTR
+        return dns.name.Name(target_labels).to_text()
+    if rdtype == SOA:
+        return f"ns. hostmaster. {salt} 7200 900 1209600 60"
     raise ValueError(rdtype)
 
 
@@ -1278,6 +1282,11 @@ def eval_case(ctx: Ctx, c: dict, gen=None):
         oracle_entry(ctx, c, obs[0], rep)
         if c["entry"] != "zone_for_name":
             aline, aobs, _ = run_impl(c, "async", None)
+            if c["entry"] == "canonical_name":
+                # the asyncio canonical_name takes no backend argument: its sleeps go through the default backend and are
+                # visible only as clock advances (the end time), not as recorded sleep events
+                strip = lambda l: " ".join(t for t in l.split(" ") if not (t.startswith("s") and t[1:].isdigit()))
+                line, aline = strip(line), strip(aline)
             if aline != line:
                 ctx.fail("C16/async/decision-differs", f"{c['entry']} sync: {line}  async: {aline}", rep)
         return True
